@@ -1,15 +1,28 @@
 // C07 conformance harness: interprets a script of closure/wrapper operations (ndjson on stdin) on
 // real xtl objects -- xclosure_wrapper, xclosure_pointer, xproxy_wrapper, xoptional / xcomplex /
-// xmasked_value over closure types, bitset element references, forward_sequence -- and writes,
-// after every call, what the call returned and the observable projection: the value of every
-// caller variable and, for every wrapper, which object each component designates (by address)
-// and the value read through it.  It contains no oracle: it executes and prints.
+// xmasked_value over closure types, bitset element references, xoptional over bitset references,
+// forward_sequence -- and writes, after every call, what the call returned and the observable
+// projection: the value of every caller variable and, for every wrapper, which object each
+// component designates (by address) and the value read through it.  It contains no oracle: it
+// executes and prints.
 //
 //   driver {int|counted|moveonly} < script > trace
 //
+// Only the public interface of xtl is used: the factory functions, the class templates' names and
+// template arguments (never their member typedefs), and public member / free functions.
+//
+// A call of the script the driver cannot perform (empty slot, a call form that is not available
+// for these types) ends the execution with a {"op":"Desync"} event and the driver continues at the
+// next Reset.  A crash, a sanitizer report, std::terminate or a call that uses more than
+// C07_CALL_CPU_S seconds of CPU time ends the trace with a {"op":"Crash"} event (the runner
+// restarts the driver for the remaining executions).  No spec action matches either event.
+//
 // Compile-time switches (set by the runner from compile probes):
-//   -DC07_CW_MO_RV     closure(move-only rvalue) compiles      -> the call is available
-//   -DC07_CX_XASSIGN   xcomplex<A,B> = xcomplex<C,D> compiles  -> the call is available
+//   -DC07_CW_MO_RV     closure(move-only rvalue) compiles                 -> the call is available
+//   -DC07_CX_XASSIGN   xcomplex<A,B> = xcomplex<C,D> compiles             -> the call is available
+//   -DC07_MV_COPY_LV   xmasked_value<T&,B&> copy from a non-const lvalue  -> the call is available
+//   -DC07_KINDS=mask   wrapper kinds to build (default: all), see KB_* below
+//   -DC07_ONLY=n       payload to build: 1 int, 2 Counted, 3 MoveOnly (default: all)
 #include <xtl/xclosure.hpp>
 #include <xtl/xproxy_wrapper.hpp>
 #include <xtl/xoptional.hpp>
@@ -24,6 +37,29 @@
 #include <string>
 #include <typeinfo>
 #include <vector>
+#include <sys/time.h>
+
+#define KB_CW 1
+#define KB_CP 2
+#define KB_PW 4
+#define KB_OPT 8
+#define KB_CX 16
+#define KB_MV 32
+#define KB_BR 64
+#define KB_FS 128
+#define KB_OB 256
+#ifndef C07_KINDS
+#define C07_KINDS 511
+#endif
+#define HAS_KIND(b) (((C07_KINDS) & (b)) != 0)
+#ifndef C07_CALL_CPU_S
+#define C07_CALL_CPU_S 5
+#endif
+#ifdef C07_MV_COPY_LV
+#define MV_COPY_LV true
+#else
+#define MV_COPY_LV false
+#endif
 
 namespace vt
 {
@@ -92,12 +128,9 @@ namespace vt
     template <> struct pname<MoveOnly> { static const char* get() { return "moveonly"; } };
 }
 
-[[noreturn]] static void unsupported(const std::string& what)
-{
-    std::fflush(stdout);
-    std::fprintf(stderr, "script: unsupported call: %s\n", what.c_str());
-    std::exit(3);
-}
+// the script asks for something this driver cannot do: the execution ends with a Desync event
+struct desync { std::string why; };
+[[noreturn]] static void unsupported(const std::string& what) { throw desync{what}; }
 
 // compile-time branch: the generic lambda's body is only instantiated when the condition holds
 struct ident { template <class T> T&& operator()(T&& t) const { return std::forward<T>(t); } };
@@ -142,6 +175,9 @@ struct world
 static world g_world;
 static const range NORANGE{nullptr, nullptr};
 
+// how a wrapper is cloned
+enum clone_how { COPY_CLV = 0, COPY_LV = 1, MOVE = 2 };
+
 struct holder
 {
     std::string kind;
@@ -152,11 +188,12 @@ struct holder
     virtual std::vector<obs> read(const std::string& form) = 0;
     virtual void assign(int v, bool rvalue) = 0;
     virtual void assign_comp(int, int, const std::string&) { unsupported("AssignComp on " + kind); }
-    virtual holder* clone(bool move) = 0;
+    virtual holder* clone(clone_how how) = 0;
     virtual void assign_from(holder&, bool) { unsupported("AssignW on " + kind); }
     virtual void swap_with(holder&, const std::string&) { unsupported("Swap on " + kind); }
     virtual std::vector<obs> addr_of(const std::string&, int) { unsupported("AddrOf on " + kind); }
     virtual int equal(holder&) { unsupported("Equal on " + kind); }
+    virtual obs value_or(int, const std::string&, const std::string&) { unsupported("ValueOr on " + kind); }
 };
 constexpr int NOWRITE = 99;
 
@@ -170,6 +207,16 @@ template <class T> using unref = std::remove_reference_t<T>;
 template <class CT> struct ct_writable : std::integral_constant<bool, !std::is_const<unref<CT>>::value> {};
 template <class CT> struct ct_ref : std::is_lvalue_reference<CT> {};
 
+// the template arguments of a wrapper type (the class templates' names are public interface; their
+// member typedefs are not needed)
+template <class W> struct wrap_args;
+template <class CT> struct wrap_args<xtl::xclosure_wrapper<CT>> { using a = CT; };
+template <class CT> struct wrap_args<xtl::xclosure_pointer<CT>> { using a = CT; };
+template <class A, class B> struct wrap_args<xtl::xoptional<A, B>> { using a = A; using b = B; };
+template <class A, class B> struct wrap_args<xtl::xmasked_value<A, B>> { using a = A; using b = B; };
+template <class W> struct is_closure_wrapper : std::false_type {};
+template <class CT> struct is_closure_wrapper<xtl::xclosure_wrapper<CT>> : std::true_type {};
+
 /**************************************************************************************************
  * xclosure_wrapper (also what proxy_wrapper returns for an lvalue or a non-class rvalue)
  **************************************************************************************************/
@@ -181,8 +228,10 @@ struct cw_holder : holder
     W w;
     template <class F> cw_holder(const char* k, F&& make) : w(make()) { kind = k; }
     struct copy_tag {};
+    struct lcopy_tag {};
     cw_holder(const char* k, W&& o, int) : w(std::move(o)) { kind = k; }
     cw_holder(const char* k, const W& o, copy_tag) : w(o) { kind = k; }
+    cw_holder(const char* k, W& o, lcopy_tag) : w(o) { kind = k; }
     range self() const { return range_of(w); }
     int ncomp() const override { return 1; }
     bool is_ref(int) const override { return REF; }
@@ -201,7 +250,7 @@ struct cw_holder : holder
             });
         else if (form == "cconv")
             when<REF || CP>::run("conversion of an owning move-only closure", [&](auto id) {
-                using CCT = typename W::const_closure_type;
+                using CCT = std::add_const_t<CT>;
                 CCT c = xtl::as_const(id(w));                  // operator const_closure_type() const
                 r.push_back(see<CCT>(c, self(), NORANGE, std::is_reference<CCT>()));
             });
@@ -215,11 +264,12 @@ struct cw_holder : holder
             else when<CP>::run("copy-assignment of a move-only payload", [&](auto id2) { P tmp = vt::mk<P>::of(v); id2(w) = tmp; });
         });
     }
-    holder* clone(bool move) override
+    holder* clone(clone_how how) override
     {
         holder* h = nullptr;
-        if (move) when<REF || CP || WR>::run("move of a const move-only closure", [&](auto id) { h = new cw_holder(kind.c_str(), std::move(id(w)), 0); });
-        else when<REF || CP>::run("copy of an owning move-only closure", [&](auto id) { h = new cw_holder(kind.c_str(), id(xtl::as_const(w)), copy_tag()); });
+        if (how == MOVE) when<REF || CP || WR>::run("move of a const move-only closure", [&](auto id) { h = new cw_holder(kind.c_str(), std::move(id(w)), 0); });
+        else if (how == COPY_CLV) when<REF || CP>::run("copy of an owning move-only closure", [&](auto id) { h = new cw_holder(kind.c_str(), id(xtl::as_const(w)), copy_tag()); });
+        else when<REF || CP>::run("copy of an owning move-only closure", [&](auto id) { h = new cw_holder(kind.c_str(), id(w), lcopy_tag()); });
         return h;
     }
     cw_holder& same(holder& j)
@@ -273,7 +323,9 @@ struct cp_holder : holder
     template <class F> cp_holder(F&& make) : w(make()) { kind = "cp"; }
     cp_holder(W&& o, int) : w(std::move(o)) { kind = "cp"; }
     struct copy_tag {};
+    struct lcopy_tag {};
     cp_holder(const W& o, copy_tag) : w(o) { kind = "cp"; }
+    cp_holder(W& o, lcopy_tag) : w(o) { kind = "cp"; }
     range self() const { return range_of(w); }
     int ncomp() const override { return 1; }
     bool is_ref(int) const override { return REF; }
@@ -294,28 +346,30 @@ struct cp_holder : holder
             else when<CP>::run("copy-assignment of a move-only payload", [&](auto id2) { P tmp = vt::mk<P>::of(v); *id2(w) = tmp; });
         });
     }
-    holder* clone(bool move) override
+    holder* clone(clone_how how) override
     {
         holder* h = nullptr;
-        if (move) when<REF || CP || WR>::run("move of a const move-only closure", [&](auto id) { h = new cp_holder(std::move(id(w)), 0); });
-        else when<REF || CP>::run("copy of an owning move-only closure", [&](auto id) { h = new cp_holder(id(xtl::as_const(w)), copy_tag()); });
+        if (how == MOVE) when<REF || CP || WR>::run("move of a const move-only closure", [&](auto id) { h = new cp_holder(std::move(id(w)), 0); });
+        else if (how == COPY_CLV) when<REF || CP>::run("copy of an owning move-only closure", [&](auto id) { h = new cp_holder(id(xtl::as_const(w)), copy_tag()); });
+        else when<REF || CP>::run("copy of an owning move-only closure", [&](auto id) { h = new cp_holder(id(w), lcopy_tag()); });
         return h;
     }
 };
 
 /**************************************************************************************************
- * xproxy_wrapper_impl<P> (proxy_wrapper of a class-type rvalue): the wrapper IS-A P
+ * proxy_wrapper of a class-type rvalue: the wrapper IS-A P (xproxy_wrapper_impl<P>)
  **************************************************************************************************/
-template <class P, class PB>     // PB: P or const P
+template <class P, class W, bool WR>     // W: what proxy_wrapper returned; WR: the source was not const
 struct pw_holder : holder
 {
-    using W = xtl::xproxy_wrapper_impl<PB>;
-    static constexpr bool WR = !std::is_const<PB>::value, CP = vt::copyable<P>::value;
+    static constexpr bool CP = vt::copyable<P>::value;
     W w;
     template <class F> pw_holder(F&& make) : w(make()) { kind = "pw"; }
     pw_holder(W&& o, int) : w(std::move(o)) { kind = "pw"; }
     struct copy_tag {};
+    struct lcopy_tag {};
     pw_holder(const W& o, copy_tag) : w(o) { kind = "pw"; }
+    pw_holder(W& o, lcopy_tag) : w(o) { kind = "pw"; }
     range self() const { return range_of(w); }
     int ncomp() const override { return 1; }
     bool is_ref(int) const override { return false; }
@@ -329,14 +383,15 @@ struct pw_holder : holder
     {
         when<WR>::run("assignment to a const proxy", [&](auto id) {
             if (rvalue) static_cast<P&>(id(w)) = vt::mk<P>::of(v);
-            else when<CP>::run("copy-assignment of a move-only payload", [&](auto id2) { P tmp = vt::mk<P>::of(v); static_cast<P&>(id2(w)) = tmp; });
+            else when<CP>::run("copy-assignment of a move-only payload", [&](auto id2) { P tmp = vt::mk<P>::of(v); id2(static_cast<P&>(w)) = tmp; });
         });
     }
-    holder* clone(bool move) override
+    holder* clone(clone_how how) override
     {
         holder* h = nullptr;
-        if (move) when<CP || WR>::run("move of a const move-only proxy", [&](auto id) { h = new pw_holder(std::move(id(w)), 0); });
-        else when<CP>::run("copy of a move-only proxy", [&](auto id) { h = new pw_holder(id(xtl::as_const(w)), copy_tag()); });
+        if (how == MOVE) when<CP || WR>::run("move of a const move-only proxy", [&](auto id) { h = new pw_holder(std::move(id(w)), 0); });
+        else if (how == COPY_CLV) when<CP>::run("copy of a move-only proxy", [&](auto id) { h = new pw_holder(id(xtl::as_const(w)), copy_tag()); });
+        else when<CP>::run("copy of a move-only proxy", [&](auto id) { h = new pw_holder(id(w), lcopy_tag()); });
         return h;
     }
     void assign_from(holder& j, bool move) override
@@ -353,14 +408,14 @@ struct pw_holder : holder
         std::vector<obs> r;
         if (form == "lv")
         {
-            auto p = &w;                                      // xclosure_pointer<PB&>
+            auto p = &w;                                      // a pointer-like object designating w
             r.push_back(SEE(*p, self(), range_of(p)));
             if (wr != NOWRITE) when<WR>::run("write through a pointer to const", [&](auto id) { *id(p) = vt::mk<P>::of(wr); });
         }
         else if (form == "rv")
         {
             when<CP || WR>::run("move of a const move-only proxy", [&](auto id) {
-                auto p = &std::move(id(w));                   // xclosure_pointer<PB>, owns a moved copy
+                auto p = &std::move(id(w));                   // a pointer-like object that owns a moved copy
                 r.push_back(SEE(*p, self(), range_of(p)));
                 if (wr != NOWRITE) when<WR>::run("write through a pointer to const", [&](auto id2) { *id2(p) = vt::mk<P>::of(wr); });
             });
@@ -377,11 +432,13 @@ using bitset_t = xtl::xdynamic_bitset<std::uint8_t>;
 template <bool IS_CONST>
 struct br_holder : holder
 {
-    using W = std::conditional_t<IS_CONST, bitset_t::const_reference, bitset_t::reference>;
+    using W = unref<decltype(std::declval<std::conditional_t<IS_CONST, const bitset_t&, bitset_t&>>()[0])>;
     W w;
     br_holder(W&& o) : w(std::move(o)) { kind = "br"; }
     struct copy_tag {};
+    struct lcopy_tag {};
     br_holder(const W& o, copy_tag) : w(o) { kind = "br"; }
+    br_holder(W& o, lcopy_tag) : w(o) { kind = "br"; }
     int ncomp() const override { return 1; }
     bool is_ref(int) const override { return true; }
     obs peek(int) override { return obs{"bit", bool(xtl::as_const(w)) ? 1 : 0}; }
@@ -395,10 +452,11 @@ struct br_holder : holder
     {
         when<!IS_CONST>::run("assignment through a const bit reference", [&](auto id) { id(w) = (v != 0); });
     }
-    holder* clone(bool move) override
+    holder* clone(clone_how how) override
     {
-        if (move) return new br_holder(W(std::move(w)));
-        return new br_holder(xtl::as_const(w), copy_tag());
+        if (how == MOVE) return new br_holder(W(std::move(w)));
+        if (how == COPY_CLV) return new br_holder(xtl::as_const(w), copy_tag());
+        return new br_holder(w, lcopy_tag());
     }
     void assign_from(holder& j, bool move) override
     {
@@ -408,10 +466,17 @@ struct br_holder : holder
             else unsupported("AssignW br from another kind");
         });
     }
+    void swap_with(holder& j, const std::string& how) override
+    {
+        auto* o = dynamic_cast<br_holder*>(&j);
+        if (!o) unsupported("swap of bit references of different types");
+        if (how != "adl") unsupported("Swap " + how + " on br");
+        when<!IS_CONST>::run("swap through const bit references", [&](auto id) { using std::swap; swap(id(w), o->w); });
+    }
     std::vector<obs> addr_of(const std::string& form, int wr) override
     {
         if (form != "lv") unsupported("AddrOf " + form + " on br");
-        auto p = &w;                                          // xclosure_pointer<reference>
+        auto p = &w;                                          // a pointer-like object designating the bit
         std::vector<obs> r{obs{"bit", bool(*p) ? 1 : 0}};
         if (wr != NOWRITE) when<!IS_CONST>::run("write through a const bit reference", [&](auto id) { *id(p) = (wr != 0); });
         return r;
@@ -435,7 +500,7 @@ struct fs_alias_holder : holder     // decltype(auto) r = forward_sequence<R, A&
     {
         when<!IS_CONST>::run("assignment through a const sequence reference", [&](auto id) { *id(r) = vt::mk<SEQ>::of(v); });
     }
-    holder* clone(bool) override { unsupported("Clone on fs"); }
+    holder* clone(clone_how) override { unsupported("Clone on fs"); }
 };
 template <class P, class SEQ>
 struct fs_own_holder : holder       // R r(forward_sequence<R, A>(a));
@@ -447,7 +512,7 @@ struct fs_own_holder : holder       // R r(forward_sequence<R, A>(a));
     obs peek(int) override { return see_ref(xtl::as_const(s), range_of(s), NORANGE); }
     std::vector<obs> read(const std::string&) override { return {see_ref(s, range_of(s), NORANGE)}; }
     void assign(int v, bool) override { s = vt::mk<SEQ>::of(v); }
-    holder* clone(bool) override { unsupported("Clone on fs"); }
+    holder* clone(clone_how) override { unsupported("Clone on fs"); }
 };
 
 /**************************************************************************************************
@@ -459,7 +524,9 @@ struct opt_tr
     template <class A, class B> using type = xtl::xoptional<A, B>;
     template <class W> static decltype(auto) c1(W&& w) { return std::forward<W>(w).value(); }
     template <class W> static decltype(auto) c2(W&& w) { return std::forward<W>(w).has_value(); }
-    static constexpr bool has_addr = true, swap_member = true, swap_adl = false, xassign = true, free_fns = true;
+    template <class W> static decltype(auto) f1(W&& w) { return xtl::value(std::forward<W>(w)); }
+    template <class W> static decltype(auto) f2(W&& w) { return xtl::has_value(std::forward<W>(w)); }
+    static constexpr bool has_addr = true, swap_member = true, swap_adl = false, xassign = true, free_fns = true, has_value_or = true, lcopy = true;
 };
 struct cx_tr
 {
@@ -467,7 +534,9 @@ struct cx_tr
     template <class A, class B> using type = xtl::xcomplex<A, B>;
     template <class W> static decltype(auto) c1(W&& w) { return std::forward<W>(w).real(); }
     template <class W> static decltype(auto) c2(W&& w) { return std::forward<W>(w).imag(); }
-    static constexpr bool has_addr = true, swap_member = false, swap_adl = false, free_fns = false;
+    template <class W> static decltype(auto) f1(W&& w) { return xtl::real(std::forward<W>(w)); }
+    template <class W> static decltype(auto) f2(W&& w) { return xtl::imag(std::forward<W>(w)); }
+    static constexpr bool has_addr = true, swap_member = false, swap_adl = false, free_fns = true, has_value_or = false, lcopy = true;
 #ifdef C07_CX_XASSIGN
     static constexpr bool xassign = true;
 #else
@@ -480,10 +549,12 @@ struct mv_tr
     template <class A, class B> using type = xtl::xmasked_value<A, B>;
     template <class W> static decltype(auto) c1(W&& w) { return std::forward<W>(w).value(); }
     template <class W> static decltype(auto) c2(W&& w) { return std::forward<W>(w).visible(); }
-    static constexpr bool has_addr = false, swap_member = true, swap_adl = true, xassign = true, free_fns = false;
+    template <class W> static int f1(W&&) { return 0; }
+    template <class W> static int f2(W&&) { return 0; }
+    static constexpr bool has_addr = false, swap_member = true, swap_adl = true, xassign = true, free_fns = false, has_value_or = false, lcopy = MV_COPY_LV;
 };
 
-template <class... T> struct tlist {};
+template <class P, bool C1, bool C2> struct ob_holder;
 
 template <class P, class Tr, class A, class B>    // A, B: the closure types of the two components
 struct h2 : holder
@@ -496,6 +567,7 @@ struct h2 : holder
     static constexpr bool CP = vt::copyable<P>::value;
     static constexpr bool P2 = std::is_same<V2, P>::value;            // second component is payload-typed (xcomplex)
     static constexpr bool ALLOWN = !R1 && !R2;
+    static constexpr bool IS_OPT = std::is_same<Tr, opt_tr>::value;
     // copy construction of W needs copyable payload unless every payload component is a reference
     static constexpr bool CAN_COPY = CP || (R1 && (R2 || !P2));
     static constexpr bool CAN_MOVE = CP || ((R1 || W1) && (R2 || !P2 || W2));
@@ -503,7 +575,9 @@ struct h2 : holder
     template <class F> explicit h2(F&& make) : w(make()) { kind = Tr::name(); }
     h2(W&& o, int) : w(std::move(o)) { kind = Tr::name(); }
     struct copy_tag {};
+    struct lcopy_tag {};
     h2(const W& o, copy_tag) : w(o) { kind = Tr::name(); }
+    h2(W& o, lcopy_tag) : w(o) { kind = Tr::name(); }
     range self() const { return range_of(w); }
     int ncomp() const override { return 2; }
     bool is_ref(int i) const override { return i == 0 ? R1 : R2; }
@@ -533,14 +607,27 @@ struct h2 : holder
             });
         else if (form == "free" || form == "cfree")
             when<Tr::free_fns>::run("free accessor functions", [&](auto id) {
-                if (form == "free") { r.push_back(SEE(xtl::value(id(w)), self(), NORANGE)); r.push_back(SEE(xtl::has_value(id(w)), self(), NORANGE)); }
-                else { r.push_back(SEE(xtl::value(xtl::as_const(id(w))), self(), NORANGE)); r.push_back(SEE(xtl::has_value(xtl::as_const(id(w))), self(), NORANGE)); }
+                if (form == "free") { r.push_back(SEE(Tr::f1(id(w)), self(), NORANGE)); r.push_back(SEE(Tr::f2(id(w)), self(), NORANGE)); }
+                else { r.push_back(SEE(Tr::f1(xtl::as_const(id(w))), self(), NORANGE)); r.push_back(SEE(Tr::f2(xtl::as_const(id(w))), self(), NORANGE)); }
             });
         else if (form == "rfree")
             when<Tr::free_fns && CAN_COPY>::run("free accessor functions on an rvalue", [&](auto id) {
-                r.push_back(SEE(xtl::value(std::move(id(w))), self(), NORANGE)); r.push_back(SEE(xtl::has_value(std::move(id(w))), self(), NORANGE));
+                r.push_back(SEE(Tr::f1(std::move(id(w))), self(), NORANGE)); r.push_back(SEE(Tr::f2(std::move(id(w))), self(), NORANGE));
             });
         else unsupported("Read " + form + " on " + kind);
+        return r;
+    }
+    obs value_or(int v, const std::string& d, const std::string& form) override
+    {
+        obs r{"none", 0};
+        when<Tr::has_value_or && CP>::run("value_or", [&](auto id) {
+            P dflt = vt::mk<P>::of(v);
+            bool lv = (d == "lv");
+            if (form == "clv") r = lv ? SEE(xtl::as_const(id(w)).value_or(dflt), self(), NORANGE) : SEE(xtl::as_const(id(w)).value_or(vt::mk<P>::of(v)), self(), NORANGE);
+            else if (form == "rv") r = lv ? SEE(std::move(id(w)).value_or(dflt), self(), NORANGE) : SEE(std::move(id(w)).value_or(vt::mk<P>::of(v)), self(), NORANGE);
+            else if (form == "crv") r = lv ? SEE(std::move(xtl::as_const(id(w))).value_or(dflt), self(), NORANGE) : SEE(std::move(xtl::as_const(id(w))).value_or(vt::mk<P>::of(v)), self(), NORANGE);
+            else unsupported("ValueOr " + form);
+        });
         return r;
     }
     static constexpr bool WHOLE_WR = std::is_same<Tr, mv_tr>::value ? W1 : (W1 && W2);
@@ -564,17 +651,17 @@ struct h2 : holder
             else when<W2 && R2>::run("write through the rvalue accessor", [&](auto id) { Tr::c2(std::move(id(w))) = vt::mk<V2>::of(v); });
         }
     }
-    holder* clone(bool move) override
+    holder* clone(clone_how how) override
     {
         holder* h = nullptr;
-        if (move) when<CAN_MOVE>::run("move of a const move-only closure", [&](auto id) { h = new h2(std::move(id(w)), 0); });
-        else when<CAN_COPY>::run("copy of an owning move-only closure", [&](auto id) { h = new h2(id(xtl::as_const(w)), copy_tag()); });
+        if (how == MOVE) when<CAN_MOVE>::run("move of a const move-only closure", [&](auto id) { h = new h2(std::move(id(w)), 0); });
+        else if (how == COPY_CLV) when<CAN_COPY>::run("copy of an owning move-only closure", [&](auto id) { h = new h2(id(xtl::as_const(w)), copy_tag()); });
+        else when<CAN_COPY && Tr::lcopy>::run("copy from a non-const lvalue", [&](auto id) { h = new h2(id(w), lcopy_tag()); });
         return h;
     }
     // --- assignment from any wrapper of the same family
-    template <class A2, class B2> bool try_assign(holder& j, bool move)
+    template <class J> bool try_assign_j(holder& j, bool move)
     {
-        using J = h2<P, Tr, A2, B2>;
         auto* o = dynamic_cast<J*>(&j);
         if (!o) return false;
         constexpr bool same = std::is_same<J, h2>::value;
@@ -585,14 +672,28 @@ struct h2 : holder
         });
         return true;
     }
+    template <class A2, class B2> bool try_assign(holder& j, bool move) { return try_assign_j<h2<P, Tr, A2, B2>>(j, move); }
     template <class A2> bool try_assign_b(holder& j, bool move)
     {
         using F = std::conditional_t<P2, P, bool>;
-        return try_assign<A2, F&>(j, move) || try_assign<A2, const F&>(j, move) || try_assign<A2, F>(j, move);
+        return try_assign<A2, F&>(j, move) || try_assign<A2, const F&>(j, move) || try_assign<A2, F>(j, move) || try_assign_cb<A2>(j, move, std::integral_constant<bool, P2>());
     }
+    template <class A2> bool try_assign_cb(holder& j, bool move, std::true_type) { return try_assign<A2, const P>(j, move); }   // (a flag is never an owned const bool)
+    template <class A2> bool try_assign_cb(holder&, bool, std::false_type) { return false; }
+    bool try_assign_ob(holder& j, bool move, std::true_type)
+    {
+#if HAS_KIND(KB_OB)
+        return try_assign_j<ob_holder<P, false, false>>(j, move) || try_assign_j<ob_holder<P, false, true>>(j, move)
+            || try_assign_j<ob_holder<P, true, false>>(j, move) || try_assign_j<ob_holder<P, true, true>>(j, move);
+#else
+        (void)j; (void)move; return false;
+#endif
+    }
+    bool try_assign_ob(holder&, bool, std::false_type) { return false; }
     void assign_from(holder& j, bool move) override
     {
-        if (!(try_assign_b<P&>(j, move) || try_assign_b<const P&>(j, move) || try_assign_b<P>(j, move)))
+        if (!(try_assign_b<P&>(j, move) || try_assign_b<const P&>(j, move) || try_assign_b<P>(j, move) || try_assign_b<const P>(j, move)
+              || try_assign_ob(j, move, std::integral_constant<bool, IS_OPT>())))
             unsupported("AssignW from a wrapper of another kind");
     }
     void swap_with(holder& j, const std::string& how) override
@@ -608,26 +709,159 @@ struct h2 : holder
         when<Tr::has_addr>::run("operator& of this wrapper", [&](auto id) {
             if (form == "lv")
             {
-                auto p = &id(w);                               // xclosure_pointer<W&>
+                auto p = &id(w);                               // a pointer-like object designating w
                 r = {SEE(Tr::c1(*p), self(), range_of(p)), SEE(Tr::c2(*p.operator->()), self(), range_of(p))};
                 if (wr != NOWRITE) when<W1>::run("write to a const component", [&](auto id2) { Tr::c1(*id2(p)) = vt::mk<V1>::of(wr); });
             }
             else if (form == "clv")
             {
-                auto p = &xtl::as_const(id(w));                // xclosure_pointer<const W&>
+                auto p = &xtl::as_const(id(w));                // ... designating w as const
                 r = {SEE(Tr::c1(*p), self(), range_of(p)), SEE(Tr::c2(*p.operator->()), self(), range_of(p))};
                 if (wr != NOWRITE) unsupported("write through a pointer to a const wrapper");
             }
             else if (form == "rv")
             {
                 when<CAN_MOVE>::run("move of a const move-only closure", [&](auto id2) {
-                    auto p = &std::move(id2(w));               // xclosure_pointer<W>: owns a wrapper moved from w
+                    auto p = &std::move(id2(w));               // ... that owns a wrapper moved from w
                     r = {SEE(Tr::c1(*p), self(), range_of(p)), SEE(Tr::c2(*p.operator->()), self(), range_of(p))};
                     if (wr != NOWRITE) when<W1>::run("write to a const component", [&](auto id3) { Tr::c1(*id3(p)) = vt::mk<V1>::of(wr); });
                 });
             }
             else unsupported("AddrOf " + form);
         });
+        return r;
+    }
+};
+
+/**************************************************************************************************
+ * xoptional over a reference and a bitset element reference (what xoptional_vector<T>::operator[]
+ * returns: xoptional<T&, bitset::reference> / xoptional<const T&, bitset::const_reference>)
+ **************************************************************************************************/
+template <class P, bool C1, bool C2>
+struct ob_holder : holder
+{
+    using A = std::conditional_t<C1, const P&, P&>;
+    using BR = typename br_holder<C2>::W;
+    using W = xtl::xoptional<A, BR>;
+    static constexpr bool CP = vt::copyable<P>::value;
+    W w;
+    template <class F> explicit ob_holder(F&& make) : w(make()) { kind = "ob"; }
+    ob_holder(W&& o, int) : w(std::move(o)) { kind = "ob"; }
+    struct copy_tag {};
+    struct lcopy_tag {};
+    ob_holder(const W& o, copy_tag) : w(o) { kind = "ob"; }
+    ob_holder(W& o, lcopy_tag) : w(o) { kind = "ob"; }
+    range self() const { return range_of(w); }
+    int ncomp() const override { return 2; }
+    bool is_ref(int) const override { return true; }
+    template <class F> static obs bit(F&& f) { return obs{"bit", bool(f) ? 1 : 0}; }
+    obs peek(int i) override
+    {
+        if (i == 0) return SEE(xtl::as_const(w).value(), self(), NORANGE);
+        return bit(xtl::as_const(w).has_value());
+    }
+    std::vector<obs> read(const std::string& form) override
+    {
+        std::vector<obs> r;
+        if (form == "lv") r = {SEE(w.value(), self(), NORANGE), bit(w.has_value())};
+        else if (form == "clv") r = {SEE(xtl::as_const(w).value(), self(), NORANGE), bit(xtl::as_const(w).has_value())};
+        else if (form == "rv") r = {SEE(std::move(w).value(), self(), NORANGE), bit(std::move(w).has_value())};
+        else if (form == "crv") r = {SEE(std::move(xtl::as_const(w)).value(), self(), NORANGE), bit(std::move(xtl::as_const(w)).has_value())};
+        else if (form == "free") r = {SEE(xtl::value(w), self(), NORANGE), bit(xtl::has_value(w))};
+        else if (form == "cfree") r = {SEE(xtl::value(xtl::as_const(w)), self(), NORANGE), bit(xtl::has_value(xtl::as_const(w)))};
+        else if (form == "rfree") r = {SEE(xtl::value(std::move(w)), self(), NORANGE), bit(xtl::has_value(std::move(w)))};
+        else unsupported("Read " + form + " on ob");
+        return r;
+    }
+    obs value_or(int v, const std::string& d, const std::string& form) override
+    {
+        obs r{"none", 0};
+        when<CP>::run("value_or", [&](auto id) {
+            P dflt = vt::mk<P>::of(v);
+            bool lv = (d == "lv");
+            if (form == "clv") r = lv ? SEE(xtl::as_const(id(w)).value_or(dflt), self(), NORANGE) : SEE(xtl::as_const(id(w)).value_or(vt::mk<P>::of(v)), self(), NORANGE);
+            else if (form == "rv") r = lv ? SEE(std::move(id(w)).value_or(dflt), self(), NORANGE) : SEE(std::move(id(w)).value_or(vt::mk<P>::of(v)), self(), NORANGE);
+            else if (form == "crv") r = lv ? SEE(std::move(xtl::as_const(id(w))).value_or(dflt), self(), NORANGE) : SEE(std::move(xtl::as_const(id(w))).value_or(vt::mk<P>::of(v)), self(), NORANGE);
+            else unsupported("ValueOr " + form);
+        });
+        return r;
+    }
+    void assign(int v, bool rvalue) override
+    {
+        when<!C1 && !C2>::run("whole assignment through const references", [&](auto id) {
+            if (rvalue) id(w) = vt::mk<P>::of(v);
+            else when<CP>::run("copy-assignment of a move-only payload", [&](auto id2) { P tmp = vt::mk<P>::of(v); id2(w) = tmp; });
+        });
+    }
+    void assign_comp(int i, int v, const std::string& form) override
+    {
+        if (i == 0)
+            when<!C1>::run("write to a const component", [&](auto id) {
+                if (form == "lv") id(w).value() = vt::mk<P>::of(v); else std::move(id(w)).value() = vt::mk<P>::of(v);
+            });
+        else
+            when<!C2>::run("write to a const bit", [&](auto id) {
+                if (form == "lv") id(w).has_value() = (v != 0); else std::move(id(w)).has_value() = (v != 0);
+            });
+    }
+    holder* clone(clone_how how) override
+    {
+        if (how == MOVE) return new ob_holder(std::move(w), 0);
+        if (how == COPY_CLV) return new ob_holder(xtl::as_const(w), copy_tag());
+        return new ob_holder(w, lcopy_tag());
+    }
+    template <class J> bool try_assign_j(holder& j, bool move)
+    {
+        auto* o = dynamic_cast<J*>(&j);
+        if (!o) return false;
+        constexpr bool ok = !C1 && !C2 && CP && !std::is_same<J, ob_holder>::value;
+        when<ok>::run("wrapper assignment", [&](auto id) {
+            if (move) id(w) = std::move(o->w);
+            else id(w) = xtl::as_const(o->w);
+        });
+        return true;
+    }
+    template <class A2> bool try_assign_b(holder& j, bool move)
+    {
+        return try_assign_j<h2<P, opt_tr, A2, bool&>>(j, move) || try_assign_j<h2<P, opt_tr, A2, const bool&>>(j, move)
+            || try_assign_j<h2<P, opt_tr, A2, bool>>(j, move);
+    }
+    void assign_from(holder& j, bool move) override
+    {
+        if (!(try_assign_b<P&>(j, move) || try_assign_b<const P&>(j, move) || try_assign_b<P>(j, move) || try_assign_b<const P>(j, move)
+              || try_assign_j<ob_holder<P, false, false>>(j, move) || try_assign_j<ob_holder<P, false, true>>(j, move)
+              || try_assign_j<ob_holder<P, true, false>>(j, move) || try_assign_j<ob_holder<P, true, true>>(j, move)))
+            unsupported("AssignW ob from a wrapper of another kind");
+    }
+    void swap_with(holder& j, const std::string& how) override
+    {
+        auto* o = dynamic_cast<ob_holder*>(&j);
+        if (!o) unsupported("swap of wrappers of different types");
+        if (how != "member") unsupported("Swap " + how + " on ob");
+        when<!C1 && !C2>::run("swap through const references", [&](auto id) { id(w).swap(o->w); });
+    }
+    std::vector<obs> addr_of(const std::string& form, int wr) override
+    {
+        std::vector<obs> r;
+        if (form == "lv")
+        {
+            auto p = &w;
+            r = {SEE((*p).value(), self(), range_of(p)), bit(p.operator->()->has_value())};
+            if (wr != NOWRITE) when<!C1>::run("write to a const component", [&](auto id) { (*id(p)).value() = vt::mk<P>::of(wr); });
+        }
+        else if (form == "clv")
+        {
+            auto p = &xtl::as_const(w);
+            r = {SEE((*p).value(), self(), range_of(p)), bit(p.operator->()->has_value())};
+            if (wr != NOWRITE) unsupported("write through a pointer to a const wrapper");
+        }
+        else if (form == "rv")
+        {
+            auto p = &std::move(w);
+            r = {SEE((*p).value(), self(), range_of(p)), bit(p.operator->()->has_value())};
+            if (wr != NOWRITE) when<!C1>::run("write to a const component", [&](auto id) { (*id(p)).value() = vt::mk<P>::of(wr); });
+        }
+        else unsupported("AddrOf " + form);
         return r;
     }
 };
@@ -689,6 +923,7 @@ struct machine
     {
         const std::string& cat = s.str("cat");
         int i = int(s.num("i")) - 1;
+        if ((cat == "lv" || cat == "clv") && (i < 0 || i >= NF)) unsupported("flag index");
         if (cat == "lv") f(*F[i]);
         else if (cat == "clv") f(xtl::as_const(*F[i]));
         else if (cat == "pr") f(s.num("v") != 0);
@@ -697,133 +932,201 @@ struct machine
 
     std::string fwd_note;
 
+#if HAS_KIND(KB_CW)
+    holder* make_cw(const vj::value& s1, const std::string& via)
+    {
+        holder* h = nullptr;
+        with_p(s1, [&](auto&& src) {
+            using S = decltype(src);
+            constexpr bool lv = std::is_lvalue_reference<S>::value;
+            constexpr bool is_cw_mo_rv =
+#ifdef C07_CW_MO_RV
+                false;
+#else
+                !CP && !lv;
+#endif
+            when<!is_cw_mo_rv>::run("closure(move-only rvalue)", [&](auto id) {
+                if (via == "closure")
+                {
+                    using WT = decltype(xtl::closure(std::forward<S>(id(src))));
+                    h = new cw_holder<P, typename wrap_args<WT>::a>("cw", [&]() -> WT { return xtl::closure(std::forward<S>(id(src))); });
+                }
+                else
+                {
+                    when<lv || !std::is_const<unref<S>>::value>::run("const_closure(const rvalue)", [&](auto id2) {
+                        using WT = decltype(xtl::const_closure(std::forward<S>(id2(src))));
+                        h = new cw_holder<P, typename wrap_args<WT>::a>("cw", [&]() -> WT { return xtl::const_closure(std::forward<S>(id2(src))); });
+                    });
+                }
+            });
+        });
+        return h;
+    }
+#endif
+#if HAS_KIND(KB_CP)
+    holder* make_cp(const vj::value& s1, const std::string& via)
+    {
+        holder* h = nullptr;
+        with_p(s1, [&](auto&& src) {
+            using S = decltype(src);
+            constexpr bool lv = std::is_lvalue_reference<S>::value;
+            if (via == "closure")
+            {
+                using WT = decltype(xtl::closure_pointer(std::forward<S>(src)));
+                h = new cp_holder<P, typename wrap_args<WT>::a>([&]() -> WT { return xtl::closure_pointer(std::forward<S>(src)); });
+            }
+            else
+            {
+                when<lv || !std::is_const<unref<S>>::value>::run("const_closure_pointer(const rvalue)", [&](auto id2) {
+                    using WT = decltype(xtl::const_closure_pointer(std::forward<S>(id2(src))));
+                    h = new cp_holder<P, typename wrap_args<WT>::a>([&]() -> WT { return xtl::const_closure_pointer(std::forward<S>(id2(src))); });
+                });
+            }
+        });
+        return h;
+    }
+#endif
+#if HAS_KIND(KB_PW)
+    // proxy_wrapper: either a wrapper that IS-A P (class-type rvalues) or a closure wrapper
+    template <class S> holder* make_pw_as(S&& src, std::true_type /* is-a P */)
+    {
+        using WT = decltype(xtl::proxy_wrapper(std::forward<S>(src)));
+        return new pw_holder<P, WT, !std::is_const<unref<S>>::value>([&]() -> WT { return xtl::proxy_wrapper(std::forward<S>(src)); });
+    }
+    template <class S> holder* make_pw_as(S&& src, std::false_type)
+    {
+        using WT = decltype(xtl::proxy_wrapper(std::forward<S>(src)));
+        return new cw_holder<P, typename wrap_args<WT>::a>("pw", [&]() -> WT { return xtl::proxy_wrapper(std::forward<S>(src)); });
+    }
+    holder* make_pw(const vj::value& s1)
+    {
+        holder* h = nullptr;
+        with_p(s1, [&](auto&& src) {
+            using S = decltype(src);
+            using WT = decltype(xtl::proxy_wrapper(std::forward<S>(src)));
+            h = this->make_pw_as(std::forward<S>(src), std::integral_constant<bool, std::is_class<P>::value && std::is_base_of<P, WT>::value>());
+        });
+        return h;
+    }
+#endif
+#if HAS_KIND(KB_OPT) || HAS_KIND(KB_MV)
+    holder* make_optmv(const std::string& kind, const vj::value& s1, const vj::value& s2)
+    {
+        holder* h = nullptr;
+        with_p(s1, [&](auto&& va) {
+            using SA = decltype(va);
+            this->with_f(s2, [&](auto&& fb) {
+                using SB = decltype(fb);
+#if HAS_KIND(KB_OPT)
+                if (kind == "opt")
+                {
+                    using WT = decltype(xtl::optional(std::forward<SA>(va), std::forward<SB>(fb)));
+                    using H = h2<P, opt_tr, typename wrap_args<WT>::a, typename wrap_args<WT>::b>;
+                    h = new H([&]() -> WT { return xtl::optional(std::forward<SA>(va), std::forward<SB>(fb)); });
+                }
+#endif
+#if HAS_KIND(KB_MV)
+                if (kind == "mv")
+                {
+                    using WT = decltype(xtl::masked_value(std::forward<SA>(va), std::forward<SB>(fb)));
+                    using H = h2<P, mv_tr, typename wrap_args<WT>::a, typename wrap_args<WT>::b>;
+                    h = new H([&]() -> WT { return xtl::masked_value(std::forward<SA>(va), std::forward<SB>(fb)); });
+                }
+#endif
+            });
+        });
+        if (!h) unsupported("Make " + kind + ": kind not built");
+        return h;
+    }
+#endif
+#if HAS_KIND(KB_CX)
+    holder* make_cx(const vj::value& s1, const vj::value& s2)
+    {
+        holder* h = nullptr;
+        with_p(s1, [&](auto&& va) {
+            using SA = decltype(va);
+            this->with_p(s2, [&](auto&& vb) {
+                using SB = decltype(vb);
+                using A_ = xtl::closure_type_t<SA>;
+                using B_ = xtl::closure_type_t<SB>;
+                using H = h2<P, cx_tr, A_, B_>;
+                using WT = typename H::W;
+                h = new H([&]() -> WT { return WT(std::forward<SA>(va), std::forward<SB>(vb)); });
+            });
+        });
+        return h;
+    }
+#endif
+#if HAS_KIND(KB_OB)
+    holder* make_ob(const vj::value& s1, const vj::value& s2)
+    {
+        const std::string& c1 = s1.str("cat");
+        const std::string& c2 = s2.str("cat");
+        int i = int(s1.num("i")) - 1;
+        size_t b = size_t(s2.num("i") - 1);
+        if (i < 0 || i >= NX || b >= size_t(NB)) unsupported("variable index");
+        if ((c1 != "lv" && c1 != "clv") || (c2 != "lv" && c2 != "clv")) unsupported("ob from " + c1 + "/" + c2);
+        bool k1 = c1 == "clv", k2 = c2 == "clv";
+        P& x = *X[i];
+        if (!k1 && !k2) { using H = ob_holder<P, false, false>; return new H([&]() { return typename H::W(x, BS[b]); }); }
+        if (!k1 && k2) { using H = ob_holder<P, false, true>; return new H([&]() { return typename H::W(x, xtl::as_const(BS)[b]); }); }
+        if (k1 && !k2) { using H = ob_holder<P, true, false>; return new H([&]() { return typename H::W(xtl::as_const(x), BS[b]); }); }
+        using H = ob_holder<P, true, true>;
+        return new H([&]() { return typename H::W(xtl::as_const(x), xtl::as_const(BS)[b]); });
+    }
+#endif
+
     holder* make(const vj::value& a)
     {
         const std::string& kind = a.str("kind");
         const std::string& via = a.str("via");
         const vj::value& s1 = a.at("s").a.at(0);
-        holder* h = nullptr;
         fwd_note = "na";
-        if (kind == "cw" || kind == "cp" || kind == "pw")
-        {
-            with_p(s1, [&](auto&& src) {
-                using S = decltype(src);
-                constexpr bool lv = std::is_lvalue_reference<S>::value;
-                constexpr bool is_cw_mo_rv =
-#ifdef C07_CW_MO_RV
-                    false;
-#else
-                    !CP && !lv;
+        (void)via;
+#if HAS_KIND(KB_CW)
+        if (kind == "cw") return make_cw(s1, via);
 #endif
-                if (kind == "cw")
-                {
-                    when<!is_cw_mo_rv>::run("closure(move-only rvalue)", [&](auto id) {
-                        if (via == "closure")
-                        {
-                            using WT = decltype(xtl::closure(std::forward<S>(id(src))));
-                            h = new cw_holder<P, typename WT::closure_type>("cw", [&]() -> WT { return xtl::closure(std::forward<S>(id(src))); });
-                        }
-                        else
-                        {
-                            when<lv || !std::is_const<unref<S>>::value>::run("const_closure(const rvalue)", [&](auto id2) {
-                                using WT = decltype(xtl::const_closure(std::forward<S>(id2(src))));
-                                h = new cw_holder<P, typename WT::closure_type>("cw", [&]() -> WT { return xtl::const_closure(std::forward<S>(id2(src))); });
-                            });
-                        }
-                    });
-                }
-                else if (kind == "cp")
-                {
-                    if (via == "closure")
-                    {
-                        using WT = decltype(xtl::closure_pointer(std::forward<S>(src)));
-                        h = new cp_holder<P, typename WT::closure_type>([&]() -> WT { return xtl::closure_pointer(std::forward<S>(src)); });
-                    }
-                    else
-                    {
-                        when<lv || !std::is_const<unref<S>>::value>::run("const_closure_pointer(const rvalue)", [&](auto id2) {
-                            using WT = decltype(xtl::const_closure_pointer(std::forward<S>(id2(src))));
-                            h = new cp_holder<P, typename WT::closure_type>([&]() -> WT { return xtl::const_closure_pointer(std::forward<S>(id2(src))); });
-                        });
-                    }
-                }
-                else
-                    h = this->make_pw(std::forward<S>(src), std::integral_constant<bool, lv || !std::is_class<P>::value>());
-            });
-        }
-        else if (kind == "br")
+#if HAS_KIND(KB_CP)
+        if (kind == "cp") return make_cp(s1, via);
+#endif
+#if HAS_KIND(KB_PW)
+        if (kind == "pw") return make_pw(s1);
+#endif
+#if HAS_KIND(KB_BR)
+        if (kind == "br")
         {
             const std::string& cat = s1.str("cat");
             size_t i = size_t(s1.num("i") - 1);
-            if (cat == "lv") h = new br_holder<false>(BS[i]);
-            else if (cat == "clv") h = new br_holder<true>(xtl::as_const(BS)[i]);
-            else unsupported("bit reference from " + cat);
+            if (i >= size_t(NB)) unsupported("bit index");
+            if (cat == "lv") return new br_holder<false>(BS[i]);
+            if (cat == "clv") return new br_holder<true>(xtl::as_const(BS)[i]);
+            unsupported("bit reference from " + cat);
         }
-        else if (kind == "fs")
+#endif
+#if HAS_KIND(KB_FS)
+        if (kind == "fs")
         {
+            holder* h = nullptr;
             with_s(s1, [&](auto&& src) { h = this->make_fs(std::forward<decltype(src)>(src), via == "same"); });
+            return h;
         }
-        else if (kind == "opt" || kind == "mv")
-        {
-            const vj::value& s2 = a.at("s").a.at(1);
-            with_p(s1, [&](auto&& va) {
-                using SA = decltype(va);
-                when<!std::is_const<unref<SA>>::value || std::is_lvalue_reference<SA>::value>::run("const rvalue source", [&](auto id) {
-                    this->with_f(s2, [&](auto&& fb) {
-                        using SB = decltype(fb);
-                        if (kind == "opt")
-                        {
-                            using WT = decltype(xtl::optional(std::forward<SA>(id(va)), std::forward<SB>(fb)));
-                            using H = h2<P, opt_tr, typename WT::value_closure, typename WT::flag_closure>;
-                            h = new H([&]() -> WT { return xtl::optional(std::forward<SA>(id(va)), std::forward<SB>(fb)); });
-                        }
-                        else
-                        {
-                            using WT = decltype(xtl::masked_value(std::forward<SA>(id(va)), std::forward<SB>(fb)));
-                            using H = h2<P, mv_tr, typename WT::value_type, typename WT::flag_type>;
-                            h = new H([&]() -> WT { return xtl::masked_value(std::forward<SA>(id(va)), std::forward<SB>(fb)); });
-                        }
-                    });
-                });
-            });
-        }
-        else if (kind == "cx")
-        {
-            const vj::value& s2 = a.at("s").a.at(1);
-            with_p(s1, [&](auto&& va) {
-                using SA = decltype(va);
-                when<!std::is_const<unref<SA>>::value || std::is_lvalue_reference<SA>::value>::run("const rvalue source", [&](auto id) {
-                    this->with_p(s2, [&](auto&& vb) {
-                        using SB = decltype(vb);
-                        when<!std::is_const<unref<SB>>::value || std::is_lvalue_reference<SB>::value>::run("const rvalue source", [&](auto id2) {
-                            using A_ = xtl::closure_type_t<SA>;
-                            using B_ = xtl::closure_type_t<SB>;
-                            using H = h2<P, cx_tr, A_, B_>;
-                            using WT = typename H::W;
-                            h = new H([&]() -> WT { return WT(std::forward<SA>(id(va)), std::forward<SB>(id2(vb))); });
-                        });
-                    });
-                });
-            });
-        }
-        else unsupported("Make " + kind);
-        return h;
+#endif
+#if HAS_KIND(KB_OPT)
+        if (kind == "opt") return make_optmv(kind, s1, a.at("s").a.at(1));
+#endif
+#if HAS_KIND(KB_MV)
+        if (kind == "mv") return make_optmv(kind, s1, a.at("s").a.at(1));
+#endif
+#if HAS_KIND(KB_CX)
+        if (kind == "cx") return make_cx(s1, a.at("s").a.at(1));
+#endif
+#if HAS_KIND(KB_OB)
+        if (kind == "ob") return make_ob(s1, a.at("s").a.at(1));
+#endif
+        unsupported("Make " + kind + ": kind not built");
     }
 
-    // proxy_wrapper: an xclosure_wrapper for lvalues and non-class payloads, an xproxy_wrapper_impl otherwise
-    template <class S> holder* make_pw(S&& src, std::true_type)
-    {
-        using WT = decltype(xtl::proxy_wrapper(std::forward<S>(src)));
-        return new cw_holder<P, typename WT::closure_type>("pw", [&]() -> WT { return xtl::proxy_wrapper(std::forward<S>(src)); });
-    }
-    template <class S> holder* make_pw(S&& src, std::false_type)
-    {
-        using WT = decltype(xtl::proxy_wrapper(std::forward<S>(src)));
-        using PB = unref<S>;
-        static_assert(std::is_same<WT, xtl::xproxy_wrapper_impl<PB>>::value, "proxy_wrapper of a class rvalue");
-        return new pw_holder<P, PB>([&]() -> WT { return xtl::proxy_wrapper(std::forward<S>(src)); });
-    }
-
+#if HAS_KIND(KB_FS)
     // forward_sequence<R, A>(a) as used by a forwarding constructor: `a` is the named parameter A&& a
     template <class A_> holder* make_fs(A_&& a, bool same)
     {
@@ -860,6 +1163,7 @@ struct machine
         });
         return h;
     }
+#endif
 
     // ---- projection
     std::string proj()
@@ -907,27 +1211,31 @@ struct machine
         try
         {
             if (op == "Reset") { reset(); c0 = m0 = 0; }
-            else if (op == "Make") { if (k < 0 || k >= NW) unsupported("slot"); holder* h = make(a); W[k].reset(h); }
+            else if (op == "Make") { if (k < 0 || k >= NW) unsupported("slot"); holder* h = make(a); if (!h) unsupported("Make produced nothing"); W[k].reset(h); }
             else if (op == "Destroy") { slot(k); W[k].reset(); }
             else if (op == "EndTemps") { temps.clear(); stemps.clear(); }
             else if (op == "WriteVar")
             {
                 const std::string& cls = a.str("cls");
                 int i = int(a.num("i")) - 1, v = int(a.num("v"));
+                int n = cls == "x" ? NX : cls == "f" ? NF : cls == "b" ? NB : cls == "s" ? NS : 0;
+                if (i < 0 || i >= n) unsupported("WriteVar index");
                 if (cls == "x") *X[i] = vt::mk<P>::of(v);
                 else if (cls == "f") *F[i] = (v != 0);
                 else if (cls == "b") BS[size_t(i)] = (v != 0);
-                else if (cls == "s") *S[i] = vt::mk<SEQ>::of(v);
-                else unsupported("WriteVar class");
+                else *S[i] = vt::mk<SEQ>::of(v);
             }
             else if (op == "Read") val = obs_json(slot(k).read(a.str("form")));
+            else if (op == "ValueOr") val = obs_json({slot(k).value_or(int(a.num("v")), a.str("d"), a.str("form"))});
             else if (op == "Assign") slot(k).assign(int(a.num("v")), a.str("cat") == "rv");
             else if (op == "AssignComp") slot(k).assign_comp(int(a.num("i")) - 1, int(a.num("v")), a.str("form"));
             else if (op == "CopyW" || op == "MoveW")
             {
                 int j = int(a.num("j")) - 1;
-                if (j == k) unsupported("clone of itself");
-                holder* h = slot(j).clone(op == "MoveW");
+                if (j == k || k < 0 || k >= NW) unsupported("clone target");
+                clone_how how = op == "MoveW" ? MOVE : (a.str("form") == "lv" ? COPY_LV : COPY_CLV);
+                holder* h = slot(j).clone(how);
+                if (!h) unsupported("clone produced nothing");
                 W[k].reset(h);
             }
             else if (op == "AssignW") slot(k).assign_from(slot(int(a.num("j")) - 1), a.num("mv") != 0);
@@ -945,24 +1253,51 @@ struct machine
     int run()
     {
         std::string line;
+        bool skipping = false;
         reset();
         while (std::getline(std::cin, line))
         {
             if (line.empty()) continue;
             vj::value e = vj::parse(line);
-            if (e.str("op") == "Reset" && e.at("a").str("p") != vt::pname<P>::get()) unsupported("this driver instance runs payload " + std::string(vt::pname<P>::get()));
-            std::string res = step(e);
+            const std::string& op = e.str("op");
+            if (skipping && op != "Reset") continue;
+            skipping = false;
             std::string head = line.substr(0, line.rfind('}'));
-            std::fputs((head + ",\"res\":" + res + ",\"st\":" + proj() + "}\n").c_str(), stdout);
+            try
+            {
+                if (op == "Reset" && e.at("a").str("p") != vt::pname<P>::get()) unsupported("this driver instance runs payload " + std::string(vt::pname<P>::get()));
+                struct itimerval it = {{0, 0}, {C07_CALL_CPU_S, 0}};
+                setitimer(ITIMER_PROF, &it, nullptr);           // per-call CPU limit
+                std::string res = step(e);
+                std::fputs((head + ",\"res\":" + res + ",\"st\":" + proj() + "}\n").c_str(), stdout);
+            }
+            catch (const desync& d)
+            {
+                std::string why;
+                for (char c : d.why) why += (c == '"' || c == '\\' || (unsigned char)c < 32) ? ' ' : c;
+                long long n = e.num("n", -1);
+                std::fputs(("{\"op\":\"Desync\",\"k\":0,\"a\":{\"z\":0},\"n\":" + std::to_string(n) + ",\"at\":\"" + op + "\",\"why\":\"" + why + "\"}\n").c_str(), stdout);
+                skipping = true;
+            }
         }
+        struct itimerval off = {{0, 0}, {0, 0}};
+        setitimer(ITIMER_PROF, &off, nullptr);
         for (auto& h : W) h.reset();
         return 0;
     }
 };
 
+static void on_cpu_limit(int)
+{
+    std::fflush(stdout);
+    vj::crash_line("cpu-limit");
+    _exit(0);
+}
+
 int main(int argc, char** argv)
 {
     vj::install_crash_handlers();
+    std::signal(SIGPROF, on_cpu_limit);
     std::string p = argc > 1 ? argv[1] : "counted";
 #if !defined(C07_ONLY) || C07_ONLY == 1
     if (p == "int") return machine<int>().run();
